@@ -41,7 +41,9 @@ Definition lenN (b : bytes) : N := N.of_nat (length b).
 (* the only ways the models look at a buffer *)
 Definition rd (buf : bytes) (limit i : N) : res N :=
   if i <? limit then
-    match nth_error buf (N.to_nat i) with Some b => Ok b | None => Fault end
+    (if i <? lenN buf then          (* an offset beyond the block is a Fault whatever [limit] claims *)
+       match nth_error buf (N.to_nat i) with Some b => Ok b | None => Fault end
+     else Fault)
   else Fault.
 
 Definition sub_bytes (buf : bytes) (p n : N) : bytes := firstn (N.to_nat n) (skipn (N.to_nat p) buf).
